@@ -405,8 +405,16 @@ class GraphSystem(System):
 
     def op_regenerate(self, c, op):
         def thunk():
+            old_nodes, old_attackers = list(c.g.nodes), list(c.g.attackers)
             c.g.regenerate_graph()
             c.added = 0
+            # objects of the discarded generation may be handed back later (readd_node / readd_attacker)
+            if old_nodes:
+                c.removed_nodes.append(old_nodes[0])
+                c.removed_from = c.g
+            if old_attackers:
+                c.removed_attackers.append(old_attackers[-1])
+                c.att_removed_from = c.g
 
         def expect(before, after):
             from maltoolbox.attackgraph import AttackGraph
